@@ -209,6 +209,19 @@ theorem writers_well_locked :
     wellLocked (progOf "p.muS" false Gate.Gen.C12.unregisterServerCalls) = true ∧
     (progOf "p.muS" false Gate.Gen.C12.unregisterServerCalls).contains (.del 0) = true := by decide
 
+/-! ### counting: the count is the size of the map, and a teardown that owns nothing changes nothing -/
+
+/-- the unregister section of a connection that was never registered (a refused duplicate login) deletes
+    a key that is not there: the map, hence `len(m)` = PlayerCount and every later listing, is unchanged -/
+theorem del_absent_keeps_map (m : GMap) (k : Key) (h : ∀ e ∈ m, e.1 ≠ k) : m.del k = m := by
+  unfold GMap.del
+  apply List.filter_eq_self.mpr
+  intro e he
+  simp [h e he]
+
+/-- deleting never makes the count negative or larger -/
+theorem del_length_le (m : GMap) (k : Key) : (m.del k).length ≤ m.length := List.length_filter_le _ _
+
 /-! ### non-vacuity -/
 
 example : Reachable (mkSys [] []) := ⟨[], [], [], (fun p hp => by cases hp), rfl⟩
